@@ -137,6 +137,10 @@ func gen(g *vh.Gen) {
 	for i := 0; i < g.N(45, 1000); i++ {
 		g.Emit("life", genLife(g))
 	}
+	// POP3 in ForceTLS mode: plain-text clients are dropped without leaking a session count
+	g.Emit("tls", "xP,o0:P,p0:pass,k,DP,f0,DP")
+	g.Emit("tls", "o0:P,p0:dele,xP,xP,k,nP,DP,f0,DP,DS")
+	g.Emit("tls", "xP,k,DP")
 	g.Emit("ret", "1h", "30", "pre")
 	g.Emit("ret", "1h", "30", "mid")
 	g.Emit("ret", "1h", "3", "none")
